@@ -60,11 +60,12 @@ package mustache
 //@   nopanic
 //
 // ---- setting a template (C03) -------------------------------------------------------------------------------------
+// whatever the default variables were set to (also to nil: the map is then allocated here)
 //@ func (c *MustacheTemplate) CreateVariables
 //@   tags C03
-//@   requires c != nil && c.parser != nil && (variables != nil ==> deref(variables) != nil)
+//@   requires c != nil && c.parser != nil
 //@   nopanic
 //@   loop 0
-//@     invariant -1 <= rangeindex && rangeindex < len(c.parser.variableNames) && (variables != nil ==> deref(variables) != nil)
+//@     invariant -1 <= rangeindex && rangeindex < len(c.parser.variableNames) && variables != nil && deref(variables) != nil
 //@     invariant c.parser == old(c.parser) && c.parser.variableNames == old(c.parser.variableNames)
 //@     decreases len(c.parser.variableNames) - rangeindex
